@@ -151,13 +151,14 @@ func (d *sendreqDom) Gen(r *gen.R, tier string, emit func(string)) {
 	for _, l := range lines {
 		emit(l)
 	}
+	emit(wire.Line("slowcb"))
 	// a real service over the embedded NATS server
 	reps := 2
 	if tier == "thorough" {
 		reps = 10
 	}
 	for i := 0; i < reps; i++ {
-		for _, sc := range []string{"resp", "pre", "silent", "slow", "pubfail", "many"} {
+		for _, sc := range []string{"resp", "pre", "precb", "silent", "slow", "pubfail", "many"} {
 			emit(wire.Line("natsend", sc))
 		}
 	}
@@ -174,7 +175,55 @@ func (d *sendreqDom) Exec(a []string) string {
 	return d.execNow(a)
 }
 
+// slowCallback: the first extension callback outlasts the deadline it announced, while a second
+// extension is already waiting on the inbox. Whenever SendRequest does take the second extension
+// (it may also see the fired deadline first: both are ready), the response that arrives within
+// it must be returned.
+func slowCallback() string {
+	nc, err := sharedNATS()
+	if err != nil {
+		return "nats-failed"
+	}
+	took, bad := 0, 0
+	var wg sync.WaitGroup
+	var mu sync.Mutex
+	for i := 0; i < 24; i++ {
+		wg.Add(1)
+		go func() {
+			defer wg.Done()
+			c := &scriptConn{subOK: true, pubOK: true, nc: nc}
+			c.events = []struct {
+				t    int
+				data string
+			}{{0, `timeout:"40"`}, {10, `timeout:"3000"`}, {400, `{"result":"ok"}`}}
+			var exts []int
+			r := resprot.SendRequest(c, "call.svc.m", nil, time.Second, func(d time.Duration) {
+				exts = append(exts, int(d/time.Millisecond))
+				if len(exts) == 1 {
+					time.Sleep(150 * time.Millisecond)
+				}
+			})
+			mu.Lock()
+			defer mu.Unlock()
+			if len(exts) == 2 && exts[1] == 3000 {
+				took++
+				if r.HasError() {
+					bad++
+				}
+			}
+		}()
+	}
+	wg.Wait()
+	if took == 0 {
+		return "slowcb never-took-second-extension"
+	}
+	return fmt.Sprintf("slowcb lost-after-extension=%d", bad)
+}
+
 func (d *sendreqDom) execNow(a []string) string {
+	if len(a) == 1 && a[0] == "slowcb" {
+		return Safe(slowCallback)
+	}
 	return Safe(func() string {
 		if len(a) >= 2 && a[0] == "natsend" {
 			return natSend(a)
@@ -314,6 +363,10 @@ func natSend(a []string) string {
 			time.Sleep(250 * time.Millisecond)
 			r.OK(map[string]int{"v": 2})
 		}),
+		res.Call("fast", func(r res.CallRequest) {
+			r.Timeout(800 * time.Millisecond)
+			r.OK("done") // right behind the pre-response
+		}),
 		res.Call("slow", func(r res.CallRequest) {
 			time.Sleep(300 * time.Millisecond)
 			r.OK(nil)
@@ -362,6 +415,12 @@ func natSend(a []string) string {
 	case "slow":
 		out = class(resprot.SendRequest(cnc, "call.ns.m.slow", nil, 100*time.Millisecond, onExt))
 		time.Sleep(250 * time.Millisecond) // the late response finds no subscription
+	case "precb":
+		// the response arrives while the extension callback is still running
+		out = class(resprot.SendRequest(cnc, "call.ns.m.fast", nil, 300*time.Millisecond, func(d time.Duration) {
+			onExt(d)
+			time.Sleep(100 * time.Millisecond)
+		}))
 	case "pubfail":
 		out = class(resprot.SendRequest(failPubConn{cnc}, "call.ns.m.ok", nil, time.Second, onExt))
 	case "many":
